@@ -819,7 +819,7 @@ func c17SharedState(r *Run, ws *dWriteSummary) {
 	for _, n := range names {
 		roots = append(roots, entries[n])
 	}
-	reach := r.Prog.reachableFuncs(roots...)
+	reach := dReachable(r.Prog, roots...)
 	seen := map[string]bool{}
 	backoffChecked := map[string]bool{}
 	for _, w := range dStateWrites(r.Prog, reach, ws) {
@@ -972,7 +972,7 @@ func c17ErrSink(r *Run) {
 		r.Fatal("anchor (%s.Reconciler).Reconcile not found", pkgERS)
 		return
 	}
-	reach := r.Prog.reachableFuncs(ers)
+	reach := dReachable(r.Prog, ers)
 	type helperRet struct {
 		fn  *ssa.Function
 		why string
@@ -1609,6 +1609,7 @@ func c17ConditionWriter(r *Run, fn *ssa.Function, j int) bool {
 	if v, ok := c17CondWriterMemo[key]; ok {
 		return v
 	}
+	c17CondWriterMemo[key] = false // recursion guard
 	want, _ := r.Prog.constStr(pkgAPI, "ConditionTypeReconcileError")
 	p := fn.Params[j]
 	paths, _, ok := funcPaths(fn, 2000)
@@ -1639,6 +1640,14 @@ func c17ConditionWriter(r *Run, fn *ssa.Function, j int) bool {
 				}
 				if hasType && hasTrue {
 					found = true
+				}
+				// or the error (or an aggregate of it) is handed to a function that is itself such a writer
+				if callee := staticCallee(&c.Call); callee != nil && callee != fn {
+					for k, a := range c.Call.Args {
+						if c17IsErrType(a.Type()) && c17OnPathReaches(pa, a, p) && c17ConditionWriter(r, callee, k) {
+							found = true
+						}
+					}
 				}
 			}
 		}
@@ -2167,6 +2176,41 @@ func (cp *c17Persist) resultPersisted(fn *ssa.Function, res ssa.Value, depth int
 
 func c17StatusPersisted(r *Run, ers *ssa.Function, reach map[*ssa.Function]bool) {
 	cp := &c17Persist{r: r, ers: ers, reach: reach, persisters: c17Persisters(r, reach)}
+	// a function that hands its status parameter to a persister on every path to a return persists it too
+	for changed := true; changed; {
+		changed = false
+		for _, fn := range sortedFuncs(reach) {
+			if _, done := cp.persisters[fn]; done || !r.Prog.IsRepoFunc(fn) {
+				continue
+			}
+			for qi, q := range fn.Params {
+				if !c17IsStatusPtr(q.Type()) {
+					continue
+				}
+				for _, ci := range callsIn(fn) {
+					c, ok := ci.(*ssa.Call)
+					if !ok {
+						continue
+					}
+					pq, isP := cp.persisters[staticCallee(&c.Call)]
+					if !isP || pq >= len(c.Call.Args) || unwrap(c.Call.Args[pq]) != ssa.Value(q) {
+						continue
+					}
+					all := true
+					for _, rt := range dNormalReturns(fn) {
+						// the call may itself be the returned expression
+						if !dDominatesInstr(c, rt) {
+							all = false
+						}
+					}
+					if all {
+						cp.persisters[fn] = qi
+						changed = true
+					}
+				}
+			}
+		}
+	}
 	if len(cp.persisters) == 0 {
 		r.Check("C17.R3", "status persister", r.Prog.Pos(ers.Pos()), shortFunc(ers), "a function writing the computed status with Status().Update is reachable from the Reconcile", false, "none found")
 		return
